@@ -249,6 +249,7 @@ let rec expr (s : Sexp.t) : query expr =
   | "orapi" -> EBinary (expr (List.nth l 0), BOr, expr (List.nth l 1))
   | "notapi" -> ENot (expr (List.hd l))
   | "insub" -> api_in_subquery (expr (List.nth l 0)) (select (List.nth l 1))
+  | "notinsub" -> EBinary (expr (List.nth l 0), BNotIn, ESubQuery (None, QSelect (select (List.nth l 1))))
   | "exists" -> api_exists (select (List.hd l))
   | h -> failwith ("expr head " ^ h)
 
